@@ -88,7 +88,7 @@ fn dir_fingerprint(p: &std::path::Path) -> BTreeMap<String, (u64, u64)> {
 fn main() {
     sys::maybe_child();
     let a = parse_args();
-    if a.stream == "compactkill" {
+    if a.stream == "compactkill" || a.stream == "compactkilldirs" {
         compactkill_stream(&a);
         return;
     }
@@ -241,7 +241,10 @@ pub fn compactkill_stream(a: &snel_harness::out::Args) {
         "compact.before_reclaim",
         "reclaim.moved",
     ];
-    let mut st = Stream::create(&a.out, "compactkill");
+    // `compactkill` (C05) judges the answers, `compactkilldirs` (C11) the directories, on the
+    // same scenarios
+    let dirs_only = a.stream == "compactkilldirs";
+    let mut st = Stream::create(&a.out, &a.stream);
     for i in 0..a.cases {
         if a.only.is_some_and(|o| o != i) {
             continue;
@@ -289,7 +292,7 @@ pub fn compactkill_stream(a: &snel_harness::out::Args) {
         let mut s = Session::start(&root, &cfg);
         let after = read(&mut s);
         let mut fail: Option<(String, String)> = None;
-        if after != before {
+        if after != before && !dirs_only {
             let class = if after.0 == before.0 && after.1 > before.1 { "compaction-crash-output-and-inputs-both-live" } else { "-" };
             fail = Some((class.into(), format!("answers changed by a kill at {point}: before {before:?} after restart {after:?}")));
         }
@@ -297,7 +300,7 @@ pub fn compactkill_stream(a: &snel_harness::out::Args) {
         let dirs_after = list_dirs(&s.shard_data_dir(0));
         for (name, fp) in &dirs_before {
             if let Some(fp2) = dirs_after.get(name) {
-                if fp2 != fp && fail.is_none() {
+                if fp2 != fp && fail.is_none() && dirs_only {
                     fail = Some(("-".into(), format!("directory {name} changed across the killed round")));
                 }
             }
@@ -307,14 +310,14 @@ pub fn compactkill_stream(a: &snel_harness::out::Args) {
         let _ = s.compact(0);
         std::thread::sleep(std::time::Duration::from_millis(150));
         let after2 = read(&mut s);
-        if fail.is_none() && after2 != after {
+        if fail.is_none() && after2 != after && !dirs_only {
             let class = if after2.0 == after.0 { "compaction-crash-output-and-inputs-both-live" } else { "-" };
             fail = Some((class.into(), format!("answers changed by the round after the recovery: {after:?} -> {after2:?}")));
         }
         let dirs_end = list_dirs(&s.shard_data_dir(0));
         for (name, fp) in &dirs_mid {
             if let Some(fp2) = dirs_end.get(name) {
-                if fp2 != fp && fail.is_none() {
+                if fp2 != fp && fail.is_none() && dirs_only {
                     fail = Some(("compaction-reuses-unpublished-output-id".into(), format!("directory {name} was rewritten by the round after a kill at {point}")));
                 }
             }
